@@ -56,6 +56,9 @@ check("C10","bounded-exhaustive hostile traffic: 45 schemas (incl. the legal-but
 check("C13","explicit-state over request histories: for every operation shape with defaults (4 parameter kinds incl. 5 array serialisations, 8 body schemas incl. allOf/oneOf/anyOf over objects and arrays) x every presence pattern x SkipSettingDefaults x body-reading authentication callback x client/server-style request: validate, next handler reads, validate again, read again; every intermediate request state is compared with the reference apply-defaults",
  "reference apply-defaults mc/checks/c13.go; the second validation uses a fresh input for the forwarded request",
  "explicit-state exploration of validate/read histories on the real validator against a reference state","3 C13")
+check("C14","explicit-state over handler histories: every sequence of <=4 (thorough <=6) Header/WriteHeader/Write/Flush calls x 4 document variants (constraint at operation level, path level, request body, document security) x request class x strict x custom/default callbacks x Flusher or not, through Validator.Middleware and the older ValidationHandler; the same handler run against the harness writer defines the intended response",
+ "client writer mirrors net/http; response validity is ValidateResponse applied to the intended response; strict equality on (status, body)",
+ "explicit-state exploration of handler-call histories on the real middleware with a differential oracle","3 C14")
 NA_REASON="check not built yet (work in progress; see DESIGN.md section 5)"
 m={"version":1,"setup_cmd":"bin/setup",
  "hooks":{"guard":"verif","enable":"go build -tags verif -overlay <generated> (bin/check does it on every invocation, regenerating the overlay from /repo's working tree)","baseline_off_cmd":"bin/baseline","source_commits":["4b7cd63"],"add_only":True},
